@@ -53,6 +53,12 @@ func TestNarrowing(t *testing.T) {
 			for i := 0; i < nf; i++ {
 				c.Fields = append(c.Fields, genField(t, s.Provs, i < nf-1 && rapid.IntRange(0, 3).Draw(t, "emptyopt") == 0))
 			}
+			// a configuration point next to the component points (other property group of the same holder)
+			if rapid.Bool().Draw(t, "cfgfield") {
+				pos := rapid.IntRange(0, len(c.Fields)).Draw(t, "cfgpos")
+				f := pop.FieldSpec{Type: "string", Tag: `value:"lit"`}
+				c.Fields = append(c.Fields[:pos], append([]pop.FieldSpec{f}, c.Fields[pos:]...)...)
+			}
 			s.Cons = append(s.Cons, c)
 		}
 		s.Finish(t)
